@@ -7,7 +7,7 @@ TARGETS = {
 PROPS = {
     "C06": dict(
         targets=["c06_point", "c06_ilu"],
-        shard_mult={"quick": 4},
+        shard_mult={"quick": 4, "thorough": 6},
         level="exploration",
         rule="tape-decoded square matrices with structurally present invertible diagonal on graph patterns (path/grid/er/tree/band/star/union/diagonal, n<=60 scalar unknowns), "
              "values M-matrix like / mixed signs or phases / small integers, strictly (block) diagonally dominant (ILU family, SPAI-1) or general non-dominant (Jacobi, Gauss-Seidel, SPAI-0, Chebyshev), "
